@@ -53,4 +53,136 @@ pub proof fn lemma_c10_periodic_subadditive(t: int, a: int, b: int)
     ensures na_sporadic(t, 0, a + b) <= na_sporadic(t, 0, a) + na_sporadic(t, 0, b)
 { lemma_c10_sporadic_subadditive(t, 0, a, b); }
 
+
+// ------------------------------------------------------------------ C10: windows as counts; delayed and superposed sequences
+pub open spec fn in_win(x: int, w: int, delta: int) -> bool { w <= x < w + delta }
+/// number of events among the first n of s that lie in the window [w, w + delta)
+pub open spec fn count_in(s: Seq<int>, n: int, w: int, delta: int) -> int
+    decreases n
+{ if n <= 0 { 0 } else { count_in(s, n - 1, w, delta) + if in_win(s[n - 1], w, delta) { 1int } else { 0 } } }
+/// "no window of length delta contains more than na(delta) events of s" (any order of the events)
+pub open spec fn window_bounded(s: Seq<int>, na: spec_fn(int) -> int) -> bool {
+    forall |w: int, delta: int| delta >= 0 ==> #[trigger] count_in(s, s.len() as int, w, delta) <= na(delta)
+}
+pub proof fn lemma_count_bounds(s: Seq<int>, n: int, w: int, delta: int)
+    requires 0 <= n <= s.len()
+    ensures 0 <= count_in(s, n, w, delta) <= n
+    decreases n
+{ if n > 0 { lemma_count_bounds(s, n - 1, w, delta); } }
+/// in a sorted sequence the events inside a window form a run of consecutive events
+pub proof fn lemma_count_is_run(s: Seq<int>, n: int, w: int, delta: int) -> (i: int)
+    requires sorted(s), 0 <= n <= s.len(), delta >= 0
+    ensures 0 <= i, i + count_in(s, n, w, delta) <= n,
+            forall |x: int| i <= x < i + count_in(s, n, w, delta) ==> in_win(#[trigger] s[x], w, delta),
+            count_in(s, n, w, delta) > 0 ==> i + count_in(s, n, w, delta) == n || !in_win(s[n - 1], w, delta),
+            forall |x: int| i + count_in(s, n, w, delta) <= x < n ==> !in_win(#[trigger] s[x], w, delta),
+    decreases n
+{
+    if n <= 0 { 0 }
+    else {
+        let i0 = lemma_count_is_run(s, n - 1, w, delta);
+        let c0 = count_in(s, n - 1, w, delta);
+        lemma_count_bounds(s, n - 1, w, delta);
+        if in_win(s[n - 1], w, delta) {
+            if c0 == 0 { n - 1 }
+            else {
+                // the earlier in-window events end right before n - 1: anything between them and s[n-1] lies between two in-window values
+                assert(i0 + c0 == n - 1) by {
+                    if i0 + c0 < n - 1 {
+                        let x = i0 + c0;
+                        assert(in_win(s[i0 + c0 - 1], w, delta));
+                        assert(s[i0 + c0 - 1] <= s[x] && s[x] <= s[n - 1]);
+                        assert(in_win(s[x], w, delta));
+                        assert(!in_win(s[x], w, delta));
+                    }
+                }
+                i0
+            }
+        } else { i0 }
+    }
+}
+/// link to the run-based lemmas (lemma_sporadic_never_undercounts, lemma_curve_never_undercounts): for sorted sequences
+/// a bound on every run of consecutive events inside a window is a bound on every window
+pub proof fn lemma_runs_to_windows(s: Seq<int>, na: spec_fn(int) -> int)
+    requires sorted(s), forall |i: int, n: int, w: int, delta: int| delta >= 0 && #[trigger] run_in_window(s, i, n, w, delta) ==> n <= na(delta)
+    ensures window_bounded(s, na)
+{
+    assert forall |w: int, delta: int| delta >= 0 implies #[trigger] count_in(s, s.len() as int, w, delta) <= na(delta) by {
+        let i = lemma_count_is_run(s, s.len() as int, w, delta);
+        let c = count_in(s, s.len() as int, w, delta);
+        lemma_count_bounds(s, s.len() as int, w, delta);
+        assert(run_in_window(s, i, c, w, delta));
+    }
+}
+/// C10 (Sporadic, window form): every window of every sorted admissible release sequence holds at most number_arrivals(delta) releases
+pub proof fn lemma_c10_sporadic_windows(rel: Seq<int>, arr: Seq<int>, t: int, j: int)
+    requires t >= 1, j >= 0, sorted(rel), respects_sporadic(rel, arr, t, j)
+    ensures window_bounded(rel, |d: int| na_sporadic(t, j, d))
+{ /*@lprobe*/
+    let na = |d: int| na_sporadic(t, j, d);
+    assert forall |i: int, n: int, w: int, delta: int| delta >= 0 && #[trigger] run_in_window(rel, i, n, w, delta) implies n <= na(delta) by {
+        lemma_sporadic_never_undercounts(rel, arr, t, j, i, n, w, delta);
+    }
+    lemma_runs_to_windows(rel, na);
+}
+/// C10 (Curve, window form)
+pub proof fn lemma_c10_curve_windows(rel: Seq<int>, d: Seq<Duration>)
+    requires dmin_wf(d), sorted(rel), respects_dmin(rel, d)
+    ensures window_bounded(rel, |x: int| na_curve(d, x))
+{ /*@lprobe*/
+    let na = |x: int| na_curve(d, x);
+    assert forall |i: int, n: int, w: int, delta: int| delta >= 0 && #[trigger] run_in_window(rel, i, n, w, delta) implies n <= na(delta) by {
+        lemma_curve_never_undercounts(rel, d, i, n, w, delta);
+    }
+    lemma_runs_to_windows(rel, na);
+}
+pub proof fn lemma_count_delay(inp: Seq<int>, out: Seq<int>, jit: int, n: int, w: int, delta: int)
+    requires out.len() == inp.len(), 0 <= n <= inp.len(), jit >= 0, forall |i: int| 0 <= i < inp.len() ==> inp[i] <= #[trigger] out[i] <= inp[i] + jit
+    ensures count_in(out, n, w, delta) <= count_in(inp, n, w - jit, delta + jit)
+    decreases n
+{ if n > 0 { lemma_count_delay(inp, out, jit, n - 1, w, delta); assert(inp[n - 1] <= out[n - 1] <= inp[n - 1] + jit); } }
+/// C10 (Propagated, clone_with_jitter): delaying each event of a sequence bounded by `na` by at most J yields a sequence bounded
+/// by delta |-> na(delta + J) (0 for the empty window) -- which is what Propagated::number_arrivals is proved to compute
+pub proof fn lemma_c10_delayed(inp: Seq<int>, out: Seq<int>, jit: int, na: spec_fn(int) -> int)
+    requires out.len() == inp.len(), jit >= 0, window_bounded(inp, na), forall |i: int| 0 <= i < inp.len() ==> inp[i] <= #[trigger] out[i] <= inp[i] + jit
+    ensures window_bounded(out, |d: int| if d > 0 { na(d + jit) } else { 0 })
+{ /*@lprobe*/
+    let nb = |d: int| if d > 0 { na(d + jit) } else { 0int };
+    assert forall |w: int, delta: int| delta >= 0 implies #[trigger] count_in(out, out.len() as int, w, delta) <= nb(delta) by {
+        if delta > 0 {
+            lemma_count_delay(inp, out, jit, inp.len() as int, w, delta);
+            assert(count_in(inp, inp.len() as int, w - jit, delta + jit) <= na(delta + jit));
+        } else { lemma_count_empty(out, out.len() as int, w); }
+    }
+}
+pub proof fn lemma_count_empty(s: Seq<int>, n: int, w: int)
+    requires 0 <= n <= s.len()
+    ensures count_in(s, n, w, 0) == 0
+    decreases n
+{ if n > 0 { lemma_count_empty(s, n - 1, w); } }
+pub proof fn lemma_count_concat(a: Seq<int>, b: Seq<int>, n: int, w: int, delta: int)
+    requires 0 <= n <= b.len()
+    ensures count_in(a + b, a.len() + n, w, delta) == count_in(a, a.len() as int, w, delta) + count_in(b, n, w, delta)
+    decreases n
+{
+    if n > 0 { lemma_count_concat(a, b, n - 1, w, delta); assert((a + b)[a.len() + n - 1] == b[n - 1]); }
+    else { lemma_count_prefix(a, a + b, a.len() as int, w, delta); }
+}
+pub proof fn lemma_count_prefix(a: Seq<int>, c: Seq<int>, n: int, w: int, delta: int)
+    requires 0 <= n <= a.len() <= c.len(), forall |i: int| 0 <= i < a.len() ==> #[trigger] c[i] == a[i]
+    ensures count_in(c, n, w, delta) == count_in(a, n, w, delta)
+    decreases n
+{ if n > 0 { lemma_count_prefix(a, c, n - 1, w, delta); } }
+/// C10 (slices, vectors, sum_of): the superposition of two bounded event sequences is bounded by the pointwise sum
+pub proof fn lemma_c10_superposition(a: Seq<int>, b: Seq<int>, na: spec_fn(int) -> int, nb: spec_fn(int) -> int)
+    requires window_bounded(a, na), window_bounded(b, nb)
+    ensures window_bounded(a + b, |d: int| na(d) + nb(d))
+{ /*@lprobe*/
+    let nc = |d: int| na(d) + nb(d);
+    assert forall |w: int, delta: int| delta >= 0 implies #[trigger] count_in(a + b, (a + b).len() as int, w, delta) <= nc(delta) by {
+        lemma_count_concat(a, b, b.len() as int, w, delta);
+        assert(count_in(a, a.len() as int, w, delta) <= na(delta)); assert(count_in(b, b.len() as int, w, delta) <= nb(delta));
+    }
+}
+
 } // verus!
